@@ -26,6 +26,9 @@ pub broadcast axiom fn axiom_string_to_string(s: &String, r: String)
 // a String is determined by its character sequence
 pub broadcast axiom fn axiom_string_view_injective(a: String, b: String)
     ensures #[trigger] a@ == #[trigger] b@ ==> a == b;
+// a string slice is determined by its character sequence (what a string-literal pattern compares)
+pub broadcast axiom fn axiom_str_view_injective(a: &str, b: &str)
+    ensures #[trigger] a@ == #[trigger] b@ ==> a == b;
 }
 // (each unit file has its one module-level `broadcast use`)
 
@@ -234,3 +237,6 @@ pub mod anyhow {
 /// rule R21: `.map_err(|e| anyhow::anyhow!(..))` only decorates the error value
 #[verifier::external_body]
 pub fn opaque_anyhow<E>(e: E) -> anyhow::Error { unimplemented!() }
+/// rule R3b: `anyhow::anyhow!(..)`: an error value whose text is irrelevant
+#[verifier::external_body]
+pub fn opaque_anyhow_val() -> anyhow::Error { unimplemented!() }
